@@ -240,6 +240,13 @@ def make_numpy():
     m.isin = lambda x, vals: NDArray(T._uf(lambda v: core.s_or(*[v == w for w in list(_obj(vals).flat)]), 1)(_obj(x)), dtype="bool")
     m.set_printoptions = lambda *a, **k: None
 
+    def diff(x, n=1, axis=-1):
+        x = _nd(x)
+        if n != 1 or x.ndim != 1:
+            raise Inconclusive("numpy.diff beyond first differences of a vector is not modelled")
+        return x[1:] - x[:-1]
+    m.diff = diff
+
     def _no_nan(x):
         cells = list(_obj(x).flat)
         if builtins.any(isinstance(v, float) and v != v for v in cells):
@@ -361,6 +368,28 @@ class _NoGrad:
         return w
 
 
+class _InferenceMode(_NoGrad):
+    def __init__(self, mode=True):
+        super().__init__(not mode)
+        self.mode = mode
+
+    def __enter__(self):
+        super().__enter__()
+        self.old_inf = T.INFERENCE_MODE[0]
+        T.INFERENCE_MODE[0] = bool(self.mode)
+        return self
+
+    def __exit__(self, *a):
+        T.INFERENCE_MODE[0] = self.old_inf
+        return super().__exit__(*a)
+
+    def __call__(self, f):
+        def w(*a, **k):
+            with _InferenceMode(self.mode):
+                return f(*a, **k)
+        return w
+
+
 def GRAD_MODEL_ON():
     return T.GRAD_ENABLED[0]
 
@@ -440,6 +469,8 @@ def make_torch():
     m.repeat_interleave = lambda x, n, dim=None: x.repeat_interleave(n, dim)
     m.no_grad = lambda: _NoGrad(False)
     m.enable_grad = lambda: _NoGrad(True)
+    m.inference_mode = lambda mode=True: _InferenceMode(mode)
+    m.is_inference_mode_enabled = lambda: T.INFERENCE_MODE[0]
     m.is_grad_enabled = lambda: T.GRAD_ENABLED[0]
     m.set_grad_enabled = lambda f: _NoGrad(f)
 
